@@ -3,6 +3,7 @@ package main
 // Streams on the pure / per-document layers: C11 (round-trip), C16 (criteria algebra), C18 (normalisation).
 
 import (
+	"os"
 	"math"
 	"fmt"
 	"reflect"
@@ -138,6 +139,56 @@ func docViewsAgree(doc *d.Document, want map[string]interface{}) string {
 	return ""
 }
 
+// clover.Open(dir), the entry point most callers use (every other stream goes through OpenWithStore and the recording
+// wrapper): what was written is there after Close and a second Open
+func plainOpenScenario(f *failer, evals *int) {
+	dir, err := os.MkdirTemp(scratchRoot(), "vh-open-")
+	if err != nil {
+		return
+	}
+	defer os.RemoveAll(dir)
+	db, err := clover.Open(dir)
+	if err != nil {
+		f.failf("clover.Open on a fresh directory failed: %v", err)
+		return
+	}
+	db.CreateCollection("c")
+	db.CreateIndex("c", "a")
+	want := map[string]string{}
+	for i := 0; i < 5; i++ {
+		m := map[string]interface{}{"_id": fmt.Sprintf("%08x-2222-4222-8222-%012x", i, i), "a": int64(i % 3), "t": time.Unix(1700000000+int64(i), 5).In(zoneP2), "n": map[string]interface{}{"k": []interface{}{uint64(i), "s", nil}}}
+		if err := db.Insert("c", d.NewDocumentOf(copyCanon(m))); err != nil {
+			f.failf("Insert through clover.Open failed: %v", err)
+		}
+		want[m["_id"].(string)] = Tstr(tValue(m))
+	}
+	if err := db.Close(); err != nil {
+		f.failf("Close failed: %v", err)
+	}
+	db, err = clover.Open(dir)
+	if err != nil {
+		f.failf("clover.Open on an existing database failed: %v", err)
+		return
+	}
+	defer db.Close()
+	*evals++
+	docs, err := db.FindAll(query.NewQuery("c").Sort(query.SortOption{Field: "a", Direction: -1}))
+	if err != nil || len(docs) != len(want) {
+		f.failf("after Close and clover.Open, FindAll through the index returns %d of %d documents (err %v)", len(docs), len(want), err)
+	}
+	for _, doc := range docs {
+		if want[doc.ObjectId()] != Tstr(tDoc(doc)) {
+			f.failf("after Close and clover.Open, document %s differs: %s", doc.ObjectId(), gValue(doc.AsMap()))
+		}
+	}
+	if n, _ := db.Count(query.NewQuery("c")); n != len(want) {
+		f.failf("after Close and clover.Open, Count = %d, expected %d", n, len(want))
+	}
+	if has, _ := db.HasIndex("c", "a"); !has {
+		f.failf("after Close and clover.Open, the index on a is gone")
+	}
+}
+
 func runC11(seed int64, n int, out, backendSpec string) *RunReport {
 	known := map[string]bool{}
 	f := &failer{}
@@ -222,13 +273,20 @@ func runC11(seed int64, n int, out, backendSpec string) *RunReport {
 		// documents holding a single time and nothing else (the encoder's choice of msgpack ext format depends
 		// on the payload length: zones with a seconds part are longer)
 		for ti, tv := range poolTimes() {
-			for variant := 0; variant < 2; variant++ {
+			for variant := 0; variant < 5; variant++ {
 				id := fmt.Sprintf("%08x-7777-4000-8000-%012x", ti, variant)
 				var m map[string]interface{}
-				if variant == 0 {
+				switch variant {
+				case 0:
 					m = map[string]interface{}{"_id": id, "t": tv}
-				} else {
+				case 1:
 					m = map[string]interface{}{"_id": id, "l": []interface{}{[]interface{}{tv}}}
+				case 2: // the only time sits behind a non-time first element
+					m = map[string]interface{}{"_id": id, "l": []interface{}{"created", tv}}
+				case 3:
+					m = map[string]interface{}{"_id": id, "l": []interface{}{map[string]interface{}{"note": int64(1)}, map[string]interface{}{"at": tv}}, "e": []interface{}{}}
+				default:
+					m = map[string]interface{}{"_id": id, "o": map[string]interface{}{"z": []interface{}{nil, []interface{}{}, tv}}}
 				}
 				if r := rec(&Op{Kind: "Insert", Coll: "c", Docs: []map[string]interface{}{m}}); errKind(r) == "e0" {
 					inserted[id] = m
@@ -306,6 +364,7 @@ func runC11(seed int64, n int, out, backendSpec string) *RunReport {
 		cs.Add(hr.caseTerm(), be == "bbolt" && len(steps) < 40)
 		env.destroy()
 	}
+	plainOpenScenario(f, &evals)
 	files := cs.Write(out, "c11")
 	return &RunReport{Stream: "c11", Seed: seed, Evaluations: evals, Distinct: len(kinds) * 3,
 		Rule:         "one evaluation = one document read back (FindById / FindAll before and after close+reopen, and Decode(Encode)) compared type-for-type with what was stored; the whole write history also goes to the model",
